@@ -281,7 +281,13 @@ class Var:
     def values(self):
         if self.dtype == ROW3:
             return _RowValues(self)
+        if self.dims or _kind(self.dtype) != 'scalar':
+            return ArrTag(self)
         return self.value
+
+    def broadcast(self, *, sizes=None, dims=None, shape=None):
+        ds = tuple(sizes) if sizes is not None else tuple(dims)
+        return Var(self.buf, ds, {**self._sizes, **{k: v for k, v in (sizes or {}).items() if not isinstance(v, tuple)}})
 
     @property
     def si(self):
@@ -780,6 +786,11 @@ def scalar(value, *, variance=None, unit=_DEFAULT, dtype=None):
 
 
 def vector(value, *, unit=_DEFAULT):
+    if isinstance(value, ArrTag):
+        v = value.var
+        if v.dtype != VEC or v.dims:
+            raise Unsupported('sc.vector from a non-vector tag')
+        return Var(Buf(list(v.val), _default_unit(unit), VEC, nan=v.buf.nan, defd=v.buf.defd))
     vals = [tz(float(x)) if not isinstance(x, z3.ExprRef) else x for x in value]
     if len(vals) != 3:
         raise Unsupported('vector of length != 3')
@@ -838,6 +849,51 @@ def full(*, value, sizes=None, dims=None, shape=None, unit=_DEFAULT, dtype=None,
     if sizes is not None:
         v._sizes.update({k: s_ for k, s_ in sizes.items() if not isinstance(s_, tuple)})
     return v
+
+
+class ArrTag:
+    """`.values` of a symbolic non-scalar variable: carries the variable (numbers in ITS unit)."""
+
+    def __init__(self, var):
+        self.var = var
+
+    def astype(self, dtype, copy=True):
+        return self
+
+    @property
+    def shape(self):
+        k = _kind(self.var.dtype)
+        return (3,) if k == 'vec' and not self.var.dims else tuple(('n', d) for d in self.var.dims) + ((3,) if k == 'vec' else ())
+
+    def squeeze(self):
+        return self
+
+    @property
+    def size(self):
+        return 3 if _kind(self.var.dtype) == 'vec' and not self.var.dims else 2
+
+
+def values(x):
+    f = getattr(x, 'vf_values', None)
+    if f is not None:
+        return f()
+    if isinstance(x, Var):
+        return x.copy()
+    raise Unsupported('sc.values')
+
+
+def variances(x):
+    f = getattr(x, 'vf_variances', None)
+    if f is not None:
+        return f()
+    raise Unsupported('sc.variances')
+
+
+def array(*, dims, values=None, variances=None, unit=_DEFAULT, dtype=None):
+    if isinstance(values, ArrTag) and variances is None:
+        v = values.var
+        return Var(Buf(v.val, _default_unit(unit), v.dtype, nan=v.buf.nan, defd=v.buf.defd), tuple(dims), v._sizes)
+    raise Unsupported('sc.array from concrete values')
 
 
 def index(value, dtype=None):
@@ -1160,7 +1216,7 @@ def build_modules():
         units=units, constants=const, typing=typing_, spatial=spatial,
         scalar=scalar, vector=vector, index=index, to_unit=to_unit, sqrt=sqrt, reciprocal=reciprocal,
         sin=sin, cos=cos, atan2=atan2, asin=asin, acos=acos, exp=exp, log=log, norm=norm, dot=dot, cross=cross,
-        full=full, concat=concat, vectors=vectors, where=where, any=any_, all=all_, max=max_, min=min_, abs=abs_, isnan=isnan, identical=identical,
+        values=values, variances=variances, array=array, full=full, concat=concat, vectors=vectors, where=where, any=any_, all=all_, max=max_, min=min_, abs=abs_, isnan=isnan, identical=identical,
     ).items():
         setattr(sc, k, v)
     return {'scipp': sc, 'scipp.units': units, 'scipp.constants': const, 'scipp.typing': typing_,
